@@ -414,8 +414,8 @@ Section Seg.
       - apply leaf_allok.
       - destruct b1; intros n E; [now injection E|discriminate].
       - intros n E; discriminate.
-      - apply IH.
-      - intros n E; discriminate.
+      - destruct sc; apply IH.
+      - destruct sc; [intros n E; discriminate|apply IH].
       - apply bool_scorer_allok. apply Forall_forall. intros c Hc. apply in_map_iff in Hc. destruct Hc as [q' [<- Hq]].
         cbn [snd]. rewrite Forall_forall in IH. apply IH. exact Hq.
       - apply bool_scorer_allok. apply Forall_forall. intros c Hc. apply in_map_iff in Hc. destruct Hc as [c' [<- Hq]].
@@ -448,8 +448,8 @@ Section Seg.
       - apply leaf_sound; exact Hi.
       - destruct b1; cbn [dmem matches]; lia.
       - reflexivity.
-      - cbn [has_f31] in HF. apply IH; assumption.
-      - cbn [has_f31 dmem] in *. apply IH; assumption.
+      - cbn [has_f31] in HF. destruct sc; apply IH; assumption.
+      - cbn [has_f31] in *. destruct sc; cbn [dmem]; apply IH; assumption.
       - rewrite matches_dismax, <- dismax_as_bool.
         rewrite (bool_scorer_sound i Hi).
         + unfold cvals. rewrite map_map. cbn [fst snd]. f_equal. apply map_ext_in. intros q' Hq. f_equal.
@@ -472,11 +472,28 @@ Section Seg.
 
     (* for_each / for_each_no_score / for_each_pruning on the root weight: complex_scorer directly,
        sound for EVERY root node (the minimum is honoured even for a single clause) *)
-    Theorem collect_model_sound sc q : has_f31_below_root q = false ->
+    Lemma has_f31_below_root_weaker sc q : has_f31 q = false -> has_f31_below_root sc q = false.
+    Proof.
+      induction q as [l| | |o q IH|q IH|qs|msm cs]; cbn [has_f31 has_f31_below_root]; intros H; try reflexivity.
+      - destruct sc; [exact H|now apply IH].
+      - destruct sc; [exact H|now apply IH].
+      - exact H.
+      - apply orb_false_iff in H. apply H.
+    Qed.
+
+    Theorem collect_model_sound sc q : has_f31_below_root sc q = false ->
       forall i, i < md -> dmem (collect_model seg leaf_scorer sc q) i = matches accepts (doc_at seg i) q.
     Proof.
-      intros HF i Hi. destruct q as [l| | |o q|q|qs|msm cs];
-        try (apply scorer_model_sound; [exact HF|exact Hi]).
+      induction q as [l| | |o q IH|q IH|qs|msm cs]; intros HF i Hi.
+      - apply scorer_model_sound; [reflexivity|exact Hi].
+      - apply scorer_model_sound; [reflexivity|exact Hi].
+      - apply scorer_model_sound; [reflexivity|exact Hi].
+      - cbn [collect_model has_f31_below_root] in *. destruct sc.
+        + apply scorer_model_sound; [exact HF|exact Hi].
+        + cbn [matches]. now apply IH.
+      - cbn [collect_model has_f31_below_root] in *. destruct sc.
+        + apply scorer_model_sound; [exact HF|exact Hi].
+        + cbn [matches]. now apply IH.
       - cbn [collect_model has_f31_below_root] in *. rewrite matches_dismax, <- dismax_as_bool.
         rewrite (complex_scorer_of_sound i Hi).
         + unfold cvals. rewrite map_map. cbn [fst snd]. f_equal. apply map_ext_in. intros q' Hq. f_equal.
